@@ -93,6 +93,47 @@ def run(chk, repo):
     chk.rule("C04.zero-filter", "without terms the kernel yields the zero value once per input")
     chk.rule("C04.names", "every m_k / d_k read is defined by the prologue or the loop")
 
+    # every call builds and runs its own kernel: a kernel kept from an earlier call may only be reused under a key
+    # that contains the generated text itself
+    chk.rule("C04.fresh-kernel", "LinearFilter.__call__ keeps no state between calls: a module-level container it reads "
+                                 "or writes (a cache of compiled kernels) must be keyed by the generated source text")
+    containers = set()
+    for st_ in mod.tree.body:
+        if isinstance(st_, ast.Assign) and len(st_.targets) == 1 and isinstance(st_.targets[0], ast.Name) and (
+                isinstance(st_.value, (ast.Dict, ast.List, ast.Set)) or
+                (isinstance(st_.value, ast.Call) and unparse(st_.value.func) in ("dict", "OrderedDict", "list", "set", "defaultdict",
+                                                                                 "collections.OrderedDict", "collections.defaultdict",
+                                                                                 "WeakValueDictionary", "weakref.WeakValueDictionary"))):
+            containers.add(st_.targets[0].id)
+    local_names = {n_.id for n_ in ast.walk(call) if isinstance(n_, ast.Name) and isinstance(n_.ctx, ast.Store)} | set(par)
+    shared = sorted({n_.id for n_ in ast.walk(call) if isinstance(n_, ast.Name) and n_.id in containers and n_.id not in local_names})
+    text_names = {"'\\n'.join(gen_func)"}
+    for a_ in ast.walk(call):
+        if isinstance(a_, ast.Assign) and isinstance(a_.targets[0], ast.Name) and "join(gen_func)" in unparse(a_.value):
+            text_names.add(a_.targets[0].id)
+    for nm_ in shared:
+        keys_ = []
+        for n_ in ast.walk(call):
+            if isinstance(n_, ast.Subscript) and unparse(n_.value) == nm_:
+                keys_.append(n_.slice)
+            elif isinstance(n_, ast.Call) and isinstance(n_.func, ast.Attribute) and unparse(n_.func.value) == nm_ and n_.args:
+                keys_.append(n_.args[0])
+
+        def resolve_(e_, depth=0):
+            t_ = unparse(e_)
+            if isinstance(e_, ast.Name) and depth < 3:
+                ds_ = [a_.value for a_ in ast.walk(call) if isinstance(a_, ast.Assign) and unparse(a_.targets[0]) == e_.id]
+                if len(ds_) == 1:
+                    return t_ + " = " + resolve_(ds_[0], depth + 1)
+            return t_
+        ok_keys = bool(keys_) and all(any(tn in resolve_(k_) for tn in text_names) for k_ in keys_)
+        chk.decide(ok_keys, "C04.fresh-kernel", W("LinearFilter.__call__"),
+                   "shared container %s keyed by %s" % (nm_, "; ".join(sorted({resolve_(k_)[:60] for k_ in keys_})) or "?"),
+                   why="a kernel compiled for an earlier call is reused under a key that does not determine the generated "
+                       "text (the text also depends on the zero value and on how coefficients print): a later call can "
+                       "run the wrong kernel", node=call)
+    if not shared:
+        chk.ok("C04.fresh-kernel", W("LinearFilter.__call__"), "no module-level container is used: every call compiles its own kernel", node=call)
     schemas = K.quick_schemas()
     from .. import peval as _pe
     _pe.COMPARED.clear()
